@@ -91,3 +91,23 @@ Proof.
   intros Hk Hd. destruct (block_renders c k1 b) eqn:E; [|reflexivity].
   assert (Hk1 : (k1 < length c)%nat) by lia. pose proof (proj1 (named_block_guard c k1 b Hk1) E) as E'. exfalso. apply (E' k2); [lia|exact Hd].
 Qed.
+
+(* module attributes are found the same way: the template's own module, else the nearest toward the
+   base that binds the name -- whatever value it binds it to *)
+Definition binds_attr (c : chain) (j : nat) (x : N) : Prop := exists t, nth_error c j = Some t /\ In x (attrs t).
+
+Theorem attr_lookup_towards_base : forall c i x j,
+  attr_from c i x = Some j -> (i <= j)%nat /\ binds_attr c j x /\ forall m, (i <= m < j)%nat -> ~ binds_attr c m x.
+Proof.
+  induction c as [|t r IH]; intros i x j H; [discriminate|]. cbn [attr_from] in H. destruct i as [|i'].
+  - destruct (memN x (attrs t)) eqn:E.
+    + injection H as <-. repeat split; [lia|exists t; split; [reflexivity|apply memN_In; exact E]|lia].
+    + destruct (attr_from r O x) as [j0|] eqn:El; [|discriminate]. injection H as <-.
+      apply IH in El as (_ & (t0 & Hn & Hd) & Hmin). repeat split; [lia|exists t0; split; assumption|].
+      intros m Hm (tm & Hnm & Hdm). destruct m as [|m'].
+      * cbn in Hnm. injection Hnm as <-. apply memN_In in Hdm. congruence.
+      * apply (Hmin m'); [lia|]. exists tm. split; assumption.
+  - destruct (attr_from r i' x) as [j0|] eqn:El; [|discriminate]. injection H as <-.
+    apply IH in El as (Hle & (t0 & Hn & Hd) & Hmin). repeat split; [lia|exists t0; split; assumption|].
+    intros m Hm (tm & Hnm & Hdm). destruct m as [|m']; [lia|]. apply (Hmin m'); [lia|]. exists tm. split; assumption.
+Qed.
